@@ -542,6 +542,9 @@ def main(argv, here, repo):
               wall_s=round(time.time() - t0, 2),
               violations=sum(c for _, c, _ in confirmed))
     edir = os.environ.get('VERIF_EVIDENCE_DIR') or os.path.join(here, 'evidence')
+    if args.limit and not os.environ.get('VERIF_EVIDENCE_DIR'):
+        # a debugging run over the first N cases must not replace the evidence of a complete run
+        edir = os.path.join(here, 'replays', '_limited_evidence')
     os.makedirs(edir, exist_ok=True)
     epath = os.path.join(edir, pid + '.json')
     with open(epath, 'w') as f:
